@@ -258,6 +258,7 @@ type Frame struct {
 	panics   []*State
 	loopFrames map[*ssa.BasicBlock][]loopFrameRec
 	dbg        map[string]Val // source variable name -> value of its latest reference (DebugRef)
+	curChanKey string // key of the channel of the operation being executed (for channel invariants)
 	curRet     string // return site whose deferred calls are being run
 	scope      *ssa.BasicBlock // loop header whose phi names take precedence in contract expressions
 	innerLoop  map[*ssa.BasicBlock]*ssa.BasicBlock
